@@ -323,3 +323,32 @@ func dkgBig(args []string) int {
 	}
 	return 0
 }
+
+func init() { commands["dkg-refdeal"] = dkgRefDeal }
+
+// dkg-refdeal --in cases.ndjson --out results.ndjson: a reference (harness-implemented, protocol-following) dealer with shaped polynomials
+func dkgRefDeal(args []string) int {
+	fs := flag.NewFlagSet("dkg-refdeal", flag.ExitOnError)
+	in := fs.String("in", "", "")
+	out := fs.String("out", "", "")
+	fs.Parse(args)
+	var cases []dkgsim.RefDealCase
+	if err := readLines(*in, func(b []byte) error {
+		var c dkgsim.RefDealCase
+		if err := json.Unmarshal(b, &c); err != nil {
+			return err
+		}
+		cases = append(cases, c)
+		return nil
+	}); err != nil {
+		fmt.Fprintln(os.Stderr, err)
+		return 2
+	}
+	res := make([]dkgsim.RefDealResult, len(cases))
+	parallel(len(cases), func(i int) { res[i] = dkgsim.RunRefDeal(cases[i]) })
+	if err := writeJSONLines(*out, res); err != nil {
+		fmt.Fprintln(os.Stderr, err)
+		return 2
+	}
+	return 0
+}
